@@ -243,3 +243,277 @@ Proof.
         destruct (dec_value (c :: r) >? two63 - 1) eqn:E1; destruct (dec_value (c :: r) <? - two63) eqn:E3; unfold two63 in *; lia.
       * destruct (all_digits (c :: r)); [discriminate|reflexivity].
 Qed.
+
+(* ================= xatos ================= *)
+Lemma land_high_zero p : 0 <= p -> (Z.land p (-65536) =? 0) = (p <=? 65535).
+Proof.
+  intros Hp. change (-65536) with (Z.lnot (Z.ones 16)).
+  rewrite <- Z.ldiff_land, Z.ldiff_ones_r by lia.
+  rewrite Z.shiftr_div_pow2, Z.shiftl_mul_pow2 by lia. change (2 ^ 16) with 65536.
+  destruct (p <=? 65535) eqn:E.
+  - assert (p / 65536 = 0) as -> by (apply Z.div_small; lia). reflexivity.
+  - assert (1 <= p / 65536) by (apply Z.div_le_lower_bound; lia). lia.
+Qed.
+
+Definition port16 (p : Z) : bool := (0 <=? p) && (p <=? 65535).
+
+Theorem xatos_spec s : clean s = true ->
+  xatos s = match numeral s with Some p => if port16 p then Some p else None | None => None end.
+Proof.
+  intros Hcl. unfold xatos. rewrite (xatoll_clean s Hcl).
+  destruct (numeral s) as [v|]; [|reflexivity]. unfold port16, sat64.
+  destruct (v >? two63 - 1) eqn:E1.
+  - cbn. destruct (0 <=? v) eqn:E2; destruct (v <=? 65535) eqn:E3; unfold two63 in *; try lia; reflexivity.
+  - destruct (v <? - two63) eqn:E2.
+    + cbn. destruct (0 <=? v) eqn:E3; [unfold two63 in *; lia|reflexivity].
+    + destruct (v <? 0) eqn:E3.
+      * destruct (0 <=? v) eqn:E4; [lia|reflexivity].
+      * rewrite (land_high_zero v) by lia. destruct (0 <=? v) eqn:E4; [|lia].
+        destruct (v <=? 65535); reflexivity.
+Qed.
+
+(* ================= one token ================= *)
+Lemma clean_app a b : clean (a ++ b) = clean a && clean b.
+Proof. unfold clean. apply forallb_app. Qed.
+
+Lemma clean_span_parts p t : clean t = true ->
+  clean (fst (span p t)) = true /\ clean (snd (span p t)) = true.
+Proof. intros H. rewrite <- (span_app p t), clean_app in H. now apply andb_prop in H. Qed.
+
+Lemma clean_tail c r : clean (c :: r) = true -> clean r = true.
+Proof. cbn [clean forallb]. intros H. now apply andb_prop in H. Qed.
+
+(* the half-open range stored for a token is [lo, hi+1) of the closed range it lists; nothing overflows *)
+Theorem ir_parse_token_spec t : clean t = true ->
+  ir_parse_token t = (match tok_range t with Some (lo, hi) => Some (lo, hi + 1) | None => None end, false).
+Proof.
+  intros Hcl. unfold ir_parse_token, tok_range. rewrite (c_string_clean t Hcl).
+  destruct (clean_span_parts (fun c => negb (c =? 45)%N) t Hcl) as [Ha Hb].
+  destruct (span (fun c => negb (c =? 45)%N) t) as [a rest]. cbn [fst snd] in Ha, Hb.
+  rewrite (xatos_spec a Ha). destruct (numeral a) as [lo|]; [|reflexivity].
+  destruct (port16 lo) eqn:Elo.
+  2:{ destruct (match rest with [] => Some lo | _ :: b => numeral b end) as [hi|]; [|reflexivity].
+      unfold port16 in Elo. destruct ((0 <=? lo) && (lo <=? hi) && (hi <=? 65535)) eqn:E; [lia|reflexivity]. }
+  assert (Hp2 : match rest with [] => Some lo | _ :: b => xatos b end =
+                match (match rest with [] => Some lo | _ :: b => numeral b end) with
+                | Some p => if port16 p then Some p else None | None => None end).
+  { destruct rest as [|x b]; [now rewrite Elo|]. apply xatos_spec. exact (clean_tail x b Hb). }
+  rewrite Hp2. destruct (match rest with [] => Some lo | _ :: b => numeral b end) as [hi|]; [|reflexivity].
+  unfold port16 in *. destruct ((0 <=? hi) && (hi <=? 65535)) eqn:Ehi.
+  - destruct (hi >=? lo) eqn:Ege.
+    + unfold add32, fits32, wrap32, two31, two32, int_max.
+      destruct ((0 <=? lo) && (lo <=? hi) && (hi <=? 65535)) eqn:E; [|lia].
+      f_equal; [|lia]. f_equal. f_equal.
+      rewrite Z.mod_small by lia. lia.
+    + destruct ((0 <=? lo) && (lo <=? hi) && (hi <=? 65535)) eqn:E; [lia|reflexivity].
+  - destruct ((0 <=? lo) && (lo <=? hi) && (hi <=? 65535)) eqn:E; [lia|reflexivity].
+Qed.
+
+(* ================= the token loop ================= *)
+Definition stored (t : bytes) : option (Z * Z) :=
+  match tok_range t with Some (lo, hi) => Some (lo, hi + 1) | None => None end.
+
+Fixpoint all_stored (toks : list bytes) : option (list (Z * Z)) :=
+  match toks with
+  | [] => Some []
+  | t :: r => match stored t, all_stored r with
+              | Some x, Some xs => Some (x :: xs)
+              | _, _ => None
+              end
+  end.
+
+Lemma ir_parse_acc toks : forall acc ub, forallb clean toks = true ->
+  ir_parse toks acc ub = (match all_stored toks with Some xs => Some (rev acc ++ xs) | None => None end, ub).
+Proof.
+  induction toks as [|t r IH]; intros acc ub Hcl; cbn [ir_parse all_stored].
+  - now rewrite app_nil_r.
+  - cbn [forallb] in Hcl. apply andb_prop in Hcl as [Ht Hr].
+    rewrite (ir_parse_token_spec t Ht). fold (stored t).
+    destruct (stored t) as [x|]; [|now rewrite orb_false_r].
+    rewrite (IH (x :: acc) (ub || false) Hr), orb_false_r. cbn [rev].
+    destruct (all_stored r) as [xs|]; [|reflexivity]. now rewrite <- app_assoc.
+Qed.
+
+Theorem ir_parse_spec toks : forallb clean toks = true ->
+  ir_parse toks [] false = (all_stored toks, false).
+Proof.
+  intros H. rewrite (ir_parse_acc toks [] false H). destruct (all_stored toks); reflexivity.
+Qed.
+
+Lemma all_stored_some toks rs : all_stored toks = Some rs ->
+  Forall2 (fun t r => exists lo hi, tok_range t = Some (lo, hi) /\ r = (lo, hi + 1)) toks rs.
+Proof.
+  revert rs. induction toks as [|t r IH]; intros rs; cbn [all_stored].
+  - intros [= <-]. constructor.
+  - unfold stored. destruct (tok_range t) as [[lo hi]|] eqn:Et; [|discriminate].
+    destruct (all_stored r) as [xs|]; [|discriminate]. intros [= <-].
+    constructor; [exists lo, hi; split; [exact Et|reflexivity] | apply IH; reflexivity].
+Qed.
+
+Lemma all_stored_none toks : all_stored toks = None <-> exists t, In t toks /\ tok_range t = None.
+Proof.
+  induction toks as [|t r IH]; cbn [all_stored].
+  - split; [discriminate|]. intros (t & [] & _).
+  - unfold stored. destruct (tok_range t) as [[lo hi]|] eqn:Et.
+    + destruct (all_stored r) as [xs|].
+      * split; [discriminate|]. intros (t' & [<-|Hin] & Hn); [congruence|].
+        destruct IH as [_ IH]. discriminate IH. now exists t'.
+      * split; [|reflexivity]. intros _. destruct IH as [IH _]. destruct (IH eq_refl) as (t' & Hin & Hn).
+        exists t'. split; [now right|exact Hn].
+    + split; [|reflexivity]. intros _. exists t. split; [now left|exact Et].
+Qed.
+
+Lemma tok_range_bounds t lo hi : tok_range t = Some (lo, hi) -> 0 <= lo <= hi /\ hi <= 65535.
+Proof.
+  unfold tok_range. destruct (span _ t) as [a rest]. destruct (numeral a) as [l|]; [|discriminate].
+  destruct (match rest with [] => Some l | _ :: b => numeral b end) as [h|]; [|discriminate].
+  destruct ((0 <=? l) && (l <=? h) && (h <=? 65535)) eqn:E; [|discriminate]. intros [= <- <-]. lia.
+Qed.
+
+(* ================= match ================= *)
+Definition wf_range (r : Z * Z) : Prop := 0 <= fst r < snd r /\ snd r <= 65536.
+
+Lemma ir_hit_spec el i : wf_range el -> - two31 <= i < int_max ->
+  ir_hit el (i, i + 1) = ((fst el <=? i) && (i <? snd el), false).
+Proof.
+  intros [Hs He] Hi. unfold ir_hit. cbn [fst snd].
+  destruct (Z.min (snd el) (i + 1) >? Z.max (fst el) i) eqn:E.
+  - unfold sub32, fits32, wrap32, two31, two32, two64, int_max in *.
+    assert (Hd : Z.min (snd el) (i + 1) - Z.max (fst el) i = 1) by lia. rewrite Hd. cbn.
+    destruct (fst el <=? i) eqn:E1; destruct (i <? snd el) eqn:E2; try lia. reflexivity.
+  - destruct (fst el <=? i) eqn:E1; destruct (i <? snd el) eqn:E2; try lia; reflexivity.
+Qed.
+
+Lemma ir_scan_spec rs i ub : Forall wf_range rs -> - two31 <= i < int_max ->
+  ir_scan rs (i, i + 1) ub = (existsb (fun r => (fst r <=? i) && (i <? snd r)) rs, ub).
+Proof.
+  intros Hwf Hi. revert ub. induction Hwf as [|el rs Hel Hrs IH]; intros ub; cbn [ir_scan existsb]; [reflexivity|].
+  rewrite (ir_hit_spec el i Hel Hi).
+  destruct ((fst el <=? i) && (i <? snd el)); cbn [orb]; [now rewrite orb_false_r|].
+  now rewrite IH, orb_false_r.
+Qed.
+
+Theorem ir_match_spec rs i : Forall wf_range rs -> - two31 <= i < int_max ->
+  ir_match rs i = (existsb (fun r => (fst r <=? i) && (i <? snd r)) rs, false).
+Proof.
+  intros Hwf Hi. unfold ir_match, add32.
+  assert (Hw : wrap32 (i + 1) = i + 1) by (unfold wrap32, two31, two32, int_max in *; rewrite Z.mod_small by lia; lia).
+  assert (Hf : negb (fits32 (i + 1)) = false) by (unfold fits32, two31, int_max in *; lia).
+  rewrite Hw, Hf. apply ir_scan_spec; assumption.
+Qed.
+
+(* at INT_MAX the very first addition overflows, whatever the list *)
+Theorem ir_match_int_max_overflows rs : snd (ir_match rs int_max) = true.
+Proof.
+  unfold ir_match. cbn [add32]. set (tf := (int_max, wrap32 (int_max + 1))).
+  assert (G : forall l ub, ub = true -> snd (ir_scan l tf ub) = true).
+  { induction l as [|el l IH]; intros ub ->; cbn [ir_scan]; [reflexivity|].
+    destruct (ir_hit el tf) as [h o]. destruct h; [reflexivity|]. now apply IH. }
+  unfold add32. apply G. reflexivity.
+Qed.
+
+Lemma stored_wf toks rs : all_stored toks = Some rs -> Forall wf_range rs.
+Proof.
+  intros H. apply all_stored_some in H. induction H as [|t r ts rs' (lo & hi & Ht & ->) _ IH]; constructor; [|exact IH].
+  apply tok_range_bounds in Ht. unfold wf_range. cbn [fst snd]. lia.
+Qed.
+
+Lemma existsb_stored toks rs i : all_stored toks = Some rs ->
+  existsb (fun r => (fst r <=? i) && (i <? snd r)) rs = true <->
+  exists t lo hi, In t toks /\ tok_range t = Some (lo, hi) /\ lo <= i <= hi.
+Proof.
+  intros H. apply all_stored_some in H. induction H as [|t r ts rs' (lo & hi & Ht & ->) _ IH]; cbn [existsb].
+  - split; [discriminate|]. intros (t & lo & hi & [] & _).
+  - cbn [fst snd]. rewrite orb_true_iff, IH. split.
+    + intros [Hh|(t' & lo' & hi' & Hin & Ht' & Hi)].
+      * exists t, lo, hi. split; [now left|]. split; [exact Ht|lia].
+      * exists t', lo', hi'. split; [now right|]. split; assumption.
+    + intros (t' & lo' & hi' & [<-|Hin] & Ht' & Hi).
+      * left. rewrite Ht in Ht'. injection Ht' as <- <-. lia.
+      * right. exists t', lo', hi'. repeat split; assumption || lia.
+Qed.
+
+(* ================= the property ================= *)
+Theorem intrange_accept_iff toks : forallb clean toks = true ->
+  (exists rs, fst (ir_parse toks [] false) = Some rs) <-> (forall t, In t toks -> tok_range t <> None).
+Proof.
+  intros Hcl. rewrite (ir_parse_spec toks Hcl). cbn [fst]. split.
+  - intros (rs & Hrs) t Hin Hn. assert (all_stored toks = None) by (apply all_stored_none; now exists t). congruence.
+  - intros H. destruct (all_stored toks) as [rs|] eqn:E; [now exists rs|].
+    apply all_stored_none in E. destruct E as (t & Hin & Hn). exfalso. exact (H t Hin Hn).
+Qed.
+
+Theorem intrange_stored toks rs : forallb clean toks = true ->
+  fst (ir_parse toks [] false) = Some rs ->
+  Forall2 (fun t r => exists lo hi, tok_range t = Some (lo, hi) /\ r = (lo, hi + 1)) toks rs.
+Proof. intros Hcl. rewrite (ir_parse_spec toks Hcl). cbn [fst]. apply all_stored_some. Qed.
+
+Theorem intrange_match_iff toks rs i : forallb clean toks = true ->
+  fst (ir_parse toks [] false) = Some rs -> - two31 <= i < int_max ->
+  (fst (ir_match rs i) = true <-> exists t lo hi, In t toks /\ tok_range t = Some (lo, hi) /\ lo <= i <= hi).
+Proof.
+  intros Hcl Hp Hi. rewrite (ir_parse_spec toks Hcl) in Hp. cbn [fst] in Hp.
+  rewrite (ir_match_spec rs i (stored_wf toks rs Hp) Hi). cbn [fst]. apply existsb_stored. exact Hp.
+Qed.
+
+Theorem intrange_no_overflow toks : forallb clean toks = true ->
+  snd (ir_parse toks [] false) = false /\
+  forall rs i, fst (ir_parse toks [] false) = Some rs -> - two31 <= i < int_max -> snd (ir_match rs i) = false.
+Proof.
+  intros Hcl. rewrite (ir_parse_spec toks Hcl). cbn [fst snd]. split; [reflexivity|].
+  intros rs i Hp Hi. now rewrite (ir_match_spec rs i (stored_wf toks rs Hp) Hi).
+Qed.
+
+(* ================= what tok_range means, relationally ================= *)
+Lemma span_no45 t : ~ In 45%N t -> span (fun c => negb (c =? 45)%N) t = (t, []).
+Proof.
+  intros H. apply span_all_true. apply forallb_forall. intros c Hc.
+  destruct (c =? 45)%N eqn:E; [|reflexivity]. exfalso. apply H. apply N.eqb_eq in E. now subst.
+Qed.
+
+Lemma span_at45 a b : ~ In 45%N a -> span (fun c => negb (c =? 45)%N) (a ++ 45%N :: b) = (a, 45%N :: b).
+Proof.
+  induction a as [|x a IH]; intros H; cbn [app span]; [reflexivity|].
+  destruct (x =? 45)%N eqn:E.
+  - exfalso. apply H. left. apply N.eqb_eq in E. now subst.
+  - cbn [negb]. rewrite IH; [reflexivity|]. intros Hin. apply H. now right.
+Qed.
+
+Lemma span_45_shape t :
+  (~ In 45%N t /\ span (fun c => negb (c =? 45)%N) t = (t, [])) \/
+  (exists a b, t = a ++ 45%N :: b /\ ~ In 45%N a /\ span (fun c => negb (c =? 45)%N) t = (a, 45%N :: b)).
+Proof.
+  induction t as [|x t IH].
+  - left. split; [intros []|reflexivity].
+  - destruct (x =? 45)%N eqn:E.
+    + right. exists [], t. apply N.eqb_eq in E. subst x. split; [reflexivity|]. split; [intros []|reflexivity].
+    + destruct IH as [[Hn Hs]|(a & b & -> & Hn & Hs)].
+      * left. split.
+        { intros [Hx|Hin]; [subst x; discriminate|exact (Hn Hin)]. }
+        { cbn [span]. now rewrite E, Hs. }
+      * right. exists (x :: a), b. split; [reflexivity|]. split.
+        { intros [Hx|Hin]; [subst x; discriminate|exact (Hn Hin)]. }
+        { cbn [span app]. rewrite E. cbn [negb]. now rewrite Hs. }
+Qed.
+
+Definition lists_range (t : bytes) (lo hi : Z) : Prop :=
+  (0 <= lo <= hi /\ hi <= 65535) /\
+  ((~ In 45%N t /\ numeral t = Some lo /\ hi = lo) \/
+   (exists a b, t = a ++ 45%N :: b /\ ~ In 45%N a /\ numeral a = Some lo /\ numeral b = Some hi)).
+
+Theorem tok_range_meaning t lo hi : tok_range t = Some (lo, hi) <-> lists_range t lo hi.
+Proof.
+  unfold lists_range, tok_range. split.
+  - intros H. destruct (span_45_shape t) as [[Hn Hs]|(a & b & Ht & Hn & Hs)]; rewrite Hs in H.
+    + destruct (numeral t) as [l|] eqn:En; [|discriminate].
+      destruct ((0 <=? l) && (l <=? l) && (l <=? 65535)) eqn:E; [|discriminate]. injection H as <- <-.
+      split; [lia|]. left. repeat split; assumption.
+    + destruct (numeral a) as [l|] eqn:Ea; [|discriminate]. destruct (numeral b) as [h|] eqn:Eb; [|discriminate].
+      destruct ((0 <=? l) && (l <=? h) && (h <=? 65535)) eqn:E; [|discriminate]. injection H as <- <-.
+      split; [lia|]. right. exists a, b. repeat split; assumption.
+  - intros [Hb [(Hn & Hnum & ->)|(a & b & -> & Hn & Ha & Hbn)]].
+    + rewrite (span_no45 t Hn), Hnum.
+      destruct ((0 <=? lo) && (lo <=? lo) && (lo <=? 65535)) eqn:E; [reflexivity|lia].
+    + rewrite (span_at45 a b Hn), Ha, Hbn.
+      destruct ((0 <=? lo) && (lo <=? hi) && (hi <=? 65535)) eqn:E; [reflexivity|lia].
+Qed.
